@@ -69,7 +69,7 @@ pub fn gen_knobs(rng: &mut Prng, focus: &str) -> Knobs {
 /// `deep` (thorough tier, every other run): larger dimension, longer histories, bigger trees.
 pub fn gen_knobs_depth(rng: &mut Prng, focus: &str, deep: bool) -> Knobs {
     let in_dim = if deep { *rng.pick(&[2usize, 3, 3, 4, 4]) } else { *rng.pick(&[1usize, 2, 2, 2, 3, 3]) };
-    let float_regime = rng.chance(3, 20);
+    let float_regime = rng.chance(1, 5);
     let alphabet = if float_regime {
         let _ = rng.below(5);
         Alphabet::Float
@@ -146,7 +146,7 @@ pub fn gen_pred(rng: &mut Prng, k: &Knobs, indim: usize, earlier: &[(Vec<f64>, f
         }
     };
     let b = k.alphabet.draw(rng);
-    if k.float_regime && rng.chance(1, 8) {
+    if k.float_regime && rng.chance(1, 4) {
         let sc = *rng.pick(&[1e3, 1e3, 1e6]);
         return (a.iter().map(|v| v * sc).collect(), b * sc);
     }
